@@ -1301,6 +1301,8 @@ class Walker:
                     continue
                 s0 = e0.state
                 s0.frames.append(fr)
+                s0.trace.append(Event('enter', call, func=res[0],
+                                      depth=fr.depth))
                 for e1 in self.block(strip_docstring(res[0].node.body), s0):
                     s1 = e1.state
                     if e1.kind in ('fall', 'return'):
